@@ -746,6 +746,30 @@ def part_dmrg(run, rng, ncases, quick, t_end):
             mps, m0 = random_state(run, rng, model, spec, basis, k, sector)
             if mps is None:
                 continue
+            # ---- variational compression of H|psi> with `percent > 0` in every sweep (two-site update, nothing truncated):
+            #      the result stays in the sector, keeps valid labels and equals the dense product
+            if rng.random() < 0.5:
+                try:
+                    src = mps.copy()
+                    pcv = float(rng.choice([0.5, 1.0]))
+                    src.compress_config = CompressConfig(CompressCriteria.fixed, max_bonddim=64, vmethod=str(rng.choice(["2site", "2site", "1site"])),
+                                                         vprocedure=[[64, pcv]] * int(rng.integers(2, 4)))
+                    v_src, _ = L.chain_dense(src)
+                    want = np.asarray(H.todense()) @ (np.asarray(v_src).ravel() * complex(src.coeff))
+                    resv = src.variational_compress(H)
+                    got, _ = L.chain_dense(resv)
+                    got = np.asarray(got).ravel() * complex(resv.coeff)
+                    run.count(f"variational_compress:percent={pcv}")
+                    rep_v = dict(spec=L.jsonable(spec), sector=sector, terms=tdesc, percent=pcv, m_max0=m0)
+                    if np.linalg.norm(want) > 1e-8:
+                        errv = float(np.linalg.norm(got - want) / np.linalg.norm(want))
+                        probs = check_chain(resv, sector)
+                        if probs:
+                            run.violation("variational_compress:percent>0:" + short(probs), dict(rep_v, problems=probs))
+                        elif errv > 1e-6:
+                            run.violation("variational_compress:percent>0:differs-from-dense-product", dict(rep_v, rel_err=errv))
+                except Exception as e:  # noqa
+                    run.count(f"rejected:variational_compress:{type(e).__name__}")
             method = ["1site", "2site"][int(rng.integers(2))]
             nroots = 1 if rng.random() < 0.7 else 2
             M = int(rng.integers(1, 7))
